@@ -63,6 +63,7 @@ import YataProofs.Indicators.Tier2b
 import YataProofs.Indicators.Realises2
 import YataProofs.Indicators.RealisesEvery
 import YataProofs.Indicators.MACDRun
+import YataProofs.Indicators.RSISpecRun
 namespace Yata.C05
 open Yata Yata.Ind
 
@@ -324,6 +325,16 @@ example : ∃ m, MA.init 255 { kind := .ema, length := 12 } (100 : ℚ) = .ok m 
     Realises (fun h => Spec.emaRec (((2 : Nat) : ℚ) / ((12 + 1 : Nat) : ℚ)) 100 h) m [] :=
   ema_realises 100 (by norm_num) (by norm_num)
 
+/-- RSI over whole streams, EVERY kind of moving average, from the constructor: at every step the value is the documented
+    pos / (pos + neg) — clamped to [0, 1] by the code, 1/2 when both averages vanish — of the documented averages
+    (`specOf kind length 0`) of the gains and of the losses of the sources consumed so far -/
+theorem C05_rsi_run {P : Nat} (c : RSICfg) (k0 : Candle ℚ) (hv : RSI.validate c = true)
+    (h1 : validLen P c.ma.kind c.ma.length) (cs : List (Candle ℚ)) :
+    ∃ s0 outs s', RSI.init P c k0 = .ok s0 ∧ runM RSI.vals s0 cs = .ok (outs, s') ∧ outs.length = cs.length ∧
+      ∀ i (hi : i < outs.length), ∃ v, outs[i] = [v] ∧
+        v.value = RSI.valueOf c (k0.source c.source) ((cs.take (i + 1)).map fun k => k.source c.source) :=
+  RSI.run_spec c k0 hv h1 cs
+
 end Yata.C05
 
 #print axioms Yata.C05.C05_realises_run
@@ -362,3 +373,4 @@ end Yata.C05
 #print axioms Yata.C05.C05_macd_run
 #print axioms Yata.C05.C05_adx_t_textbook
 #print axioms Yata.C05.C05_rsi_unclamped
+#print axioms Yata.C05.C05_rsi_run
